@@ -391,7 +391,7 @@ def cel_rows_grow_only(ctx, rule='K3'):
     if ab is None:
         return
     sites = [s_ for s_ in _p.inventory(fx, [ab]) if s_.kind in ('ext:index', 'ext:index_mut') and 'layer_index' in s_.what]
-    ctx.floor('slot accesses in add_cel', len(sites), 2)
+    ctx.floor('slot accesses in add_cel', len(sites), 1)
     for s_ in sites:
         ok, why = _c04.row_add_cel_inner(ctx, s_)
         ctx.inst(rule, 'add_cel#grow-only', ok, 'the cel row is only ever grown (resize_with(layer+1) under len < layer+1) before slot `layer` is used, so a lower '
